@@ -135,7 +135,7 @@ Lemma refused_unchanged c s r : snd (inject c s r) <> 200 -> fst (inject c s r) 
 Proof.
   unfold inject, inject_with.
   destruct (i_tls r); simpl; [|reflexivity].
-  destruct (i_chain r); simpl; [|reflexivity].
+  destruct (i_chain r); simpl; [|reflexivity]. destruct (i_leaf r) as [leaf|]; simpl; [|reflexivity].
   destruct (i_field r) as [p|]; [|reflexivity].
   pose proof (unseal_ca_error_unchanged c s p) as H.
   destruct (unseal_ca c s p) as [s' ok]. simpl in *. destruct ok; [congruence|auto].
@@ -156,32 +156,34 @@ Definition all_good (c : cfg) (p : bs) : bool := all_good_pre c p.
 
 Lemma accepted_iff c s r : signer s = None ->
   (snd (inject c s r) = 200 <->
-   i_tls r = true /\ i_chain r = true /\ exists p, i_field r = Some p /\ all_good c p = true).
+   i_tls r = true /\ i_chain r = true /\ i_leaf r <> None /\ exists p, i_field r = Some p /\ all_good c p = true).
 Proof.
   intros Hs. unfold inject, inject_with, all_good, all_good_pre.
   destruct (i_tls r); simpl; [|split; [discriminate|intros [X _]; discriminate]].
   destruct (i_chain r); simpl; [|split; [discriminate|intros [_ [X _]]; discriminate]].
-  destruct (i_field r) as [p|]; [|split; [discriminate|intros [_ [_ [p [X _]]]]; discriminate]].
+  destruct (i_leaf r) as [leaf|]; simpl; [|split; [discriminate|intros [_ [_ [X _]]]; congruence]].
+  destruct (i_field r) as [p|]; [|split; [discriminate|intros [_ [_ [_ [p [X _]]]]]; discriminate]].
+  assert (L : Some leaf <> None) by discriminate.
   unfold unseal_ca. rewrite Hs. simpl.
   destruct (bs_eqb p (right_pass c)) eqn:Ep; simpl.
-  2:{ split; [discriminate|]. intros [_ [_ [p' [X Y]]]]. inversion X; subst p'. rewrite Ep in Y. discriminate. }
+  2:{ split; [discriminate|]. intros [_ [_ [_ [p' [X Y]]]]]. inversion X; subst p'. rewrite Ep in Y. discriminate. }
   destruct (ed_file c) as [[[pe e] eres]|].
   - destruct (bs_eqb p pe) eqn:Epe; simpl.
-    2:{ split; [discriminate|]. intros [_ [_ [p' [X Y]]]]. inversion X; subst p'. rewrite Ep, Epe in Y.
+    2:{ split; [discriminate|]. intros [_ [_ [_ [p' [X Y]]]]]. inversion X; subst p'. rewrite Ep, Epe in Y.
         destruct (main_ok c), (role_ok c); discriminate. }
     destruct (file_ok eres) eqn:Er; simpl.
-    2:{ split; [discriminate|]. intros [_ [_ [p' [X Y]]]]. inversion X; subst p'. rewrite Ep, Epe in Y.
+    2:{ split; [discriminate|]. intros [_ [_ [_ [p' [X Y]]]]]. inversion X; subst p'. rewrite Ep, Epe in Y.
         destruct (main_ok c), (role_ok c); discriminate. }
     destruct (main_ok c); simpl.
-    2:{ split; [discriminate|]. intros [_ [_ [p' [X Y]]]]. inversion X; subst p'. rewrite Ep in Y. discriminate. }
+    2:{ split; [discriminate|]. intros [_ [_ [_ [p' [X Y]]]]]. inversion X; subst p'. rewrite Ep in Y. discriminate. }
     destruct (role_ok c); simpl.
-    + split; [intros _|reflexivity]. split; [reflexivity|]. split; [reflexivity|]. exists p. rewrite Ep, Epe. auto.
-    + split; [discriminate|]. intros [_ [_ [p' [X Y]]]]. inversion X; subst p'. rewrite Ep in Y. discriminate.
+    + split; [intros _|reflexivity]. split; [reflexivity|]. split; [reflexivity|]. split; [exact L|]. exists p. rewrite Ep, Epe. auto.
+    + split; [discriminate|]. intros [_ [_ [_ [p' [X Y]]]]]. inversion X; subst p'. rewrite Ep in Y. discriminate.
   - destruct (main_ok c); simpl.
-    2:{ split; [discriminate|]. intros [_ [_ [p' [X Y]]]]. inversion X; subst p'. rewrite Ep in Y. discriminate. }
+    2:{ split; [discriminate|]. intros [_ [_ [_ [p' [X Y]]]]]. inversion X; subst p'. rewrite Ep in Y. discriminate. }
     destruct (role_ok c); simpl.
-    + split; [intros _|reflexivity]. split; [reflexivity|]. split; [reflexivity|]. exists p. rewrite Ep. auto.
-    + split; [discriminate|]. intros [_ [_ [p' [X Y]]]]. inversion X; subst p'. rewrite Ep in Y. discriminate.
+    + split; [intros _|reflexivity]. split; [reflexivity|]. split; [reflexivity|]. split; [exact L|]. exists p. rewrite Ep. auto.
+    + split; [discriminate|]. intros [_ [_ [_ [p' [X Y]]]]]. inversion X; subst p'. rewrite Ep in Y. discriminate.
 Qed.
 
 (* before the repair a refused injection could change the state: main file holding an unusable key,
@@ -190,7 +192,7 @@ Definition old_cfg : cfg :=
   {| right_pass := [112]; main_key := 1; main_res := FWrongType; role_ok := true;
      ed_file := Some ([112], 2, FGood); extra_pubkeys := [] |}.
 Lemma old_refused_changes_state :
-  let r := {| i_tls := true; i_chain := true; i_field := Some [112] |} in
+  let r := admin_inj (Some [112]) in
   snd (inject_old old_cfg (sealed_init old_cfg) r) = 400 /\
   ed (fst (inject_old old_cfg (sealed_init old_cfg) r)) = Some 2 /\
   ca_ders (fst (inject_old old_cfg (sealed_init old_cfg) r)) = [2] /\
@@ -200,31 +202,71 @@ Proof. vm_compute. repeat split; reflexivity. Qed.
 Lemma old_refused_changes_state_refuted :
   exists c s r, snd (inject_old c s r) <> 200 /\ fst (inject_old c s r) <> s /\ fst (inject c s r) = s.
 Proof.
-  exists old_cfg, (sealed_init old_cfg), {| i_tls := true; i_chain := true; i_field := Some [112] |}.
+  exists old_cfg, (sealed_init old_cfg), (admin_inj (Some [112])).
   destruct old_refused_changes_state as [A [B [C D]]]. split; [rewrite A; discriminate|]. split; [|exact D].
   intros X. rewrite X in B. discriminate.
 Qed.
 
-Lemma only_right_pass c s r s' code :
+Lemma only_right_pass_b c s r s' code :
   inject c s r = (s', code) -> signer s = None -> signer s' <> None ->
-  i_tls r = true /\ i_chain r = true /\ i_field r = Some (right_pass c) /\ code = 200 /\
+  i_tls r = true /\ i_chain r = true /\ i_leaf r <> None /\ i_field r = Some (right_pass c) /\ code = 200 /\
   signer s' = Some (main_key c).
 Proof.
   unfold inject, inject_with. intros H Hs Hn.
   destruct (i_tls r); simpl in H; [|inversion H; subst; congruence].
-  destruct (i_chain r); simpl in H; [|inversion H; subst; congruence].
+  destruct (i_chain r); simpl in H; [|inversion H; subst; congruence]. destruct (i_leaf r) as [leaf|]; simpl in H; [|inversion H; subst; congruence].
   destruct (i_field r) as [p|]; [|inversion H; subst; congruence].
   destruct (unseal_ca c s p) as [s1 ok] eqn:E. inversion H; subst.
   destruct (unseal_ca_sealed_or _ _ _ _ _ E Hs) as [[A _]|[A [B [C _]]]]; [congruence|].
-  subst. auto.
+  subst. repeat split; auto. discriminate.
 Qed.
+
+(* the three tests of the handler, read on the connection record *)
+Lemma verified_leaf_iff r leaf :
+  (i_tls r = true /\ i_chain r = true /\ i_leaf r = Some leaf) <->
+  exists cs rest chains, i_conn r = Some cs /\ verified_chains cs = (leaf :: rest) :: chains.
+Proof.
+  unfold i_tls, i_chain, i_leaf, i_chains. destruct (i_conn r) as [cs|]; simpl.
+  - destruct (verified_chains cs) as [|[|l rest] chains] eqn:E; simpl.
+    + split; [intros [_ [X _]]; discriminate|intros [cs' [rest [chains [A B]]]]; inversion A; subst; congruence].
+    + split; [intros [_ [_ X]]; discriminate|intros [cs' [rest [chains' [A B]]]]; inversion A; subst; congruence].
+    + split.
+      * intros [_ [_ X]]. inversion X; subst. exists cs, rest, chains. auto.
+      * intros [cs' [rest' [chains' [A B]]]]. inversion A; subst cs'. rewrite E in B. inversion B; subst. auto.
+  - split; [intros [X _]; discriminate|intros [cs [rest [chains [A _]]]]; discriminate].
+Qed.
+
+(* the property, on the record: the signer appears only through a request whose connection state carries a
+   verified chain with a leaf, and whose field is exactly the passphrase; what the peer merely presented
+   plays no part *)
+Lemma only_right_pass c s r s' code :
+  inject c s r = (s', code) -> signer s = None -> signer s' <> None ->
+  (exists cs leaf rest chains, i_conn r = Some cs /\ verified_chains cs = (leaf :: rest) :: chains) /\
+  i_field r = Some (right_pass c) /\ code = 200 /\ signer s' = Some (main_key c).
+Proof.
+  intros H Hs Hn. destruct (only_right_pass_b c s r s' code H Hs Hn) as [A [B [C [D [E F]]]]].
+  split; [|auto]. destruct (i_leaf r) as [leaf|] eqn:L; [|congruence].
+  destruct (proj1 (verified_leaf_iff r leaf) (conj A (conj B L))) as [cs [rest [chains [X Y]]]].
+  exists cs, leaf, rest, chains. auto.
+Qed.
+
+(* PeerCertificates is never consulted: two requests that differ only there are treated alike *)
+Lemma presented_irrelevant c s cs pcs field :
+  inject c s {| i_conn := Some {| peer_certs := pcs; verified_chains := verified_chains cs |}; i_field := field |} =
+  inject c s {| i_conn := Some cs; i_field := field |}.
+Proof. reflexivity. Qed.
+
+(* no verified chain (whatever was presented): refused with 403, nothing changes *)
+Lemma presented_only_refused c s r cs :
+  i_conn r = Some cs -> verified_chains cs = [] -> inject c s r = (s, 403).
+Proof. intros A B. unfold inject, inject_with, i_tls, i_chain, i_chains. rewrite A, B. reflexivity. Qed.
 
 Lemma wrong_pass_unchanged c s r p :
   i_field r = Some p -> p <> right_pass c -> fst (inject c s r) = s /\ snd (inject c s r) <> 200.
 Proof.
   unfold inject, inject_with. intros Hf Hp. rewrite Hf.
   destruct (i_tls r); simpl; [|split; [reflexivity|discriminate]].
-  destruct (i_chain r); simpl; [|split; [reflexivity|discriminate]].
+  destruct (i_chain r); simpl; [|split; [reflexivity|discriminate]]. destruct (i_leaf r) as [leaf|]; simpl; [|split; [reflexivity|discriminate]].
   unfold unseal_ca. destruct (is_some (signer s)); simpl; [split; [reflexivity|discriminate]|].
   apply bs_eqb_neq in Hp. rewrite Hp. simpl. split; [reflexivity|discriminate].
 Qed.
@@ -240,7 +282,7 @@ Lemma unsealed_stays c s r : signer s <> None -> fst (inject c s r) = s /\ snd (
 Proof.
   intros Hn. unfold inject, inject_with.
   destruct (i_tls r); simpl; [|split; [reflexivity|discriminate]].
-  destruct (i_chain r); simpl; [|split; [reflexivity|discriminate]].
+  destruct (i_chain r); simpl; [|split; [reflexivity|discriminate]]. destruct (i_leaf r) as [leaf|]; simpl; [|split; [reflexivity|discriminate]].
   destruct (i_field r); simpl; [|split; [reflexivity|discriminate]].
   unfold unseal_ca. destruct (signer s); [|congruence]. simpl. split; [reflexivity|discriminate].
 Qed.
@@ -295,7 +337,7 @@ Qed.
 Lemma inject_Q c s r : Q c s -> Q c (fst (inject c s r)).
 Proof.
   intros HQ. unfold inject, inject_with.
-  destruct (i_tls r); simpl; [|exact HQ]. destruct (i_chain r); simpl; [|exact HQ].
+  destruct (i_tls r); simpl; [|exact HQ]. destruct (i_chain r); simpl; [|exact HQ]. destruct (i_leaf r) as [leaf|]; simpl; [|exact HQ].
   destruct (i_field r) as [p|]; [|exact HQ].
   pose proof (unseal_ca_Q c s p HQ) as H. destruct (unseal_ca c s p); exact H.
 Qed.
@@ -315,7 +357,7 @@ Lemma inject_200_iff c s r : signer s = None ->
 Proof.
   intros Hs. unfold inject, inject_with.
   destruct (i_tls r); simpl; [|split; [discriminate|congruence]].
-  destruct (i_chain r); simpl; [|split; [discriminate|congruence]].
+  destruct (i_chain r); simpl; [|split; [discriminate|congruence]]. destruct (i_leaf r) as [leaf|]; simpl; [|split; [discriminate|congruence]].
   destruct (i_field r) as [p|]; simpl; [|split; [discriminate|congruence]].
   destruct (unseal_ca c s p) as [s' ok] eqn:E. simpl.
   destruct (unseal_ca_sealed_or _ _ _ _ _ E Hs) as [[A B]|[A [B _]]]; subst; [rewrite Hs|rewrite A]; split; congruence.
@@ -943,7 +985,7 @@ Qed.
 Lemma no_ed_file_no_ed c : ed_file c = None -> forall l s0, ed s0 = None -> ed (inject_all c s0 l) = None.
 Proof.
   intros A. induction l as [|r l IH]; intros s0 H0; simpl; [exact H0|]. apply IH.
-  unfold inject, inject_with. destruct (i_tls r); simpl; [|exact H0]. destruct (i_chain r); simpl; [|exact H0].
+  unfold inject, inject_with. destruct (i_tls r); simpl; [|exact H0]. destruct (i_chain r); simpl; [|exact H0]. destruct (i_leaf r) as [leaf|]; simpl; [|exact H0].
   destruct (i_field r) as [pp|]; [|exact H0]. unfold unseal_ca. rewrite A.
   destruct (is_some (signer s0)); simpl; [exact H0|].
   destruct (bs_eqb pp (right_pass c)); simpl; [|exact H0].
@@ -1112,3 +1154,92 @@ Lemma stale_replace_refuted :
   pubkeys (st (run2 stale_cfg (init_world (sealed_init stale_cfg) [JInject [112]])
                      (repeat (EThread 0%nat) 14 ++ [EWrite (w_reload [9])]))) = [2; 1; 9].
 Proof. vm_compute. repeat split; reflexivity. Qed.
+
+(* ------------------------------------------------------------------ presented is not verified *)
+(* the variant "a presented certificate suffices" (inject_presented) unseals on a connection state whose
+   VerifiedChains is empty: a self-signed certificate in PeerCertificates and the right passphrase; the
+   code's handler answers 403 and changes nothing *)
+Definition presented_cfg : cfg :=
+  {| right_pass := [112; 119]; main_key := 1; main_res := FGood; role_ok := true; ed_file := None; extra_pubkeys := [] |}.
+Definition presented_req : inj :=
+  {| i_conn := Some {| peer_certs := [3]; verified_chains := [] |}; i_field := Some [112; 119] |}.
+
+Lemma presented_suffices_refuted :
+  exists c s r, signer s = None /\ i_chains r = [] /\ i_presented r <> [] /\
+    signer (fst (inject_presented c s r)) <> None /\ snd (inject_presented c s r) = 200 /\
+    inject c s r = (s, 403).
+Proof.
+  exists presented_cfg, (sealed_init presented_cfg), presented_req.
+  vm_compute. repeat split; try reflexivity; discriminate.
+Qed.
+
+(* ------------------------------------------------------------------ whatever the listener's ClientAuth policy *)
+Lemma handshake_chains policy pool presented cs :
+  handshake policy pool presented = Some cs -> verified_chains cs <> [] ->
+  (policy = VerifyClientCertIfGiven \/ policy = RequireAndVerifyClientCert) /\
+  exists x, presented = Some x /\ cert_verifies pool x = true /\ peer_certs cs = [c_id x] /\ verified_chains cs = [[c_id x; c_issuer x]].
+Proof.
+  unfold handshake. intros H Hn.
+  destruct policy, presented as [x|]; try (inversion H; subst; simpl in Hn; congruence).
+  - destruct (cert_verifies pool x) eqn:V; [|discriminate]. inversion H; subst; simpl.
+    split; [left; reflexivity|]. exists x. auto.
+  - destruct (cert_verifies pool x) eqn:V; [|discriminate]. inversion H; subst; simpl.
+    split; [right; reflexivity|]. exists x. auto.
+Qed.
+
+Lemma any_listener policy pool presented field c s reached s' code :
+  inject_over policy pool c s presented field = (reached, s', code) ->
+  signer s = None -> signer s' <> None ->
+  reached = true /\
+  (policy = VerifyClientCertIfGiven \/ policy = RequireAndVerifyClientCert) /\
+  (exists x, presented = Some x /\ cert_verifies pool x = true) /\
+  field = Some (right_pass c) /\ code = 200 /\ signer s' = Some (main_key c).
+Proof.
+  unfold inject_over. intros H Hs Hn.
+  destruct (handshake policy pool presented) as [cs|] eqn:Hh; [|inversion H; subst; congruence].
+  destruct (inject c s {| i_conn := Some cs; i_field := field |}) as [s1 code1] eqn:E.
+  inversion H; subst reached s1 code1.
+  destruct (only_right_pass _ _ _ _ _ E Hs Hn) as [[cs' [leaf [rest [chains [A B]]]]] [C [D F]]].
+  simpl in A, C. inversion A; subst cs'.
+  assert (Hne : verified_chains cs <> []) by (rewrite B; discriminate).
+  destruct (handshake_chains _ _ _ _ Hh Hne) as [P [x [X1 [X2 _]]]].
+  split; [reflexivity|]. split; [exact P|]. split; [exists x; auto|]. auto.
+Qed.
+
+(* a listener that verifies nothing (or does not even ask) in front of the handler: nobody unseals *)
+Lemma unverifying_listener_never_unseals policy pool presented field c s :
+  (policy = NoClientCert \/ policy = RequestClientCert \/ policy = RequireAnyClientCert) ->
+  signer s = None ->
+  let '(_, s', code) := inject_over policy pool c s presented field in s' = s /\ code <> 200.
+Proof.
+  intros P Hs. destruct (inject_over policy pool c s presented field) as [[reached s'] code] eqn:E.
+  destruct (signer s') as [k|] eqn:K.
+  - assert (Hn : signer s' <> None) by congruence.
+    destruct (any_listener _ _ _ _ _ _ _ _ _ E Hs Hn) as [_ [[Q|Q] _]]; destruct P as [P|[P|P]]; congruence.
+  - unfold inject_over in E. destruct (handshake policy pool presented) as [cs|]; [|inversion E; subst; split; [reflexivity|discriminate]].
+    destruct (inject c s {| i_conn := Some cs; i_field := field |}) as [s1 code1] eqn:E1. inversion E; subst.
+    pose proof (inject_200_iff c s {| i_conn := Some cs; i_field := field |} Hs) as I2. rewrite E1 in I2. simpl in I2.
+    assert (code <> 200) as Hc by (intros X; apply I2 in X; congruence).
+    split; [|exact Hc]. pose proof (refused_unchanged c s {| i_conn := Some cs; i_field := field |}) as R. rewrite E1 in R. simpl in R. auto.
+Qed.
+
+(* ------------------------------------------------------------------ the observation predicate is sound *)
+(* on the model's own run no step is flagged: a flagged observed step is a step on which the real code
+   left the behaviour c09_only_right_pass proves of the model *)
+Lemma seq_violation_model c ops : forall s,
+  seq_violation c (negb (is_some (signer s))) ops (inject_run c s ops) = 0.
+Proof.
+  induction ops as [|r ops IH]; intros s; simpl; [reflexivity|].
+  destruct (inject c s r) as [s' code] eqn:E. simpl.
+  destruct (signer s) as [k|] eqn:Hs; simpl.
+  - (* already unsealed: stays *)
+    assert (Hn : signer s <> None) by congruence.
+    destruct (unsealed_stays c s r Hn) as [A _]. rewrite E in A. simpl in A. subst s'.
+    specialize (IH s). rewrite Hs in IH. simpl in IH. rewrite Hs. simpl. exact IH.
+  - destruct (signer s') as [k'|] eqn:Hs'; simpl.
+    + assert (Hn : signer s' <> None) by congruence.
+      destruct (only_right_pass_b _ _ _ _ _ E Hs Hn) as [A [B [C [D _]]]].
+      unfold inj_verified, inj_right_pass. rewrite A, B, D, bs_eqb_refl. destruct (i_leaf r); [|congruence]. simpl.
+      specialize (IH s'). rewrite Hs' in IH. exact IH.
+    + specialize (IH s'). rewrite Hs' in IH. exact IH.
+Qed.
